@@ -358,12 +358,15 @@ func evalC13(c c13Case, o *Obs) error {
 		}
 		h.MatchAny(hk, query)
 		want := false
-		for _, x := range query {
+		for xi, x := range query {
 			rv := refReduce(refSipHash(key, x), np)
 			single := len(items) > 0 && set[rv]
-			got, err := f.Match(key, x)
-			if err != nil || got != single {
-				return fmt.Errorf("%s: Match(%x) = %v,%v; exact set semantics on the reduced hash says %v", desc, x, got, err, single)
+			// Match decodes the whole filter: on large filters only the first items of a long query are asked singly
+			if xi < 48 || len(items) < 4096 {
+				got, err := f.Match(key, x)
+				if err != nil || got != single {
+					return fmt.Errorf("%s: Match(%x) = %v,%v; exact set semantics on the reduced hash says %v", desc, x, got, err, single)
+				}
 			}
 			if single {
 				want = true
@@ -645,6 +648,12 @@ func TestC13(t *testing.T) {
 			return
 		}
 		kC13Collide.Run(t, ev, perShard(pick(12, 600)))
+		// every run also sees sets around 2^16 members (one per shard), whatever the random sizes were
+		{
+			n := []int{65535, 65536, 65537, 70001}[shard%4]
+			d := gcsData{Key: HexBytes(bytes.Repeat([]byte{byte(shard + 1)}, 16)), P: 19, M: 784931, N: n, Seed: uint32(seedEnv)}
+			kC13.One(ev, c13Case{D: d, Qs: []gcsQuery{{Member: []int{0, n - 1}}, {Foreign: []int{1, 2, 3}}, {Member: []int{n / 2}, RepeatF: n/2 + 5}, {Foreign: []int{7}, RepeatF: n / 2}}})
+		}
 		kC13.Run(t, ev, perShard(pick(2000, 15000)))
 		ev.requireClasses("C13:P=0", "C13:P=32", "C13:N*M>=2^32", "C13:empty-filter", "C13:empty-query",
 			"C13:MatchAny->hash-branch", "C13:MatchAny->zip-branch", "C13:low-32-bit-collision-with-a-member", "C13:call-history")
